@@ -179,8 +179,11 @@ func (in *Interp) panicSite(g *G) string {
 	return fallback
 }
 
+// RepoRoot is the root of the tree under test (source positions are reported relative to it).
+var RepoRoot = "/repo"
+
 func relRepo(f string) string {
-	if r, err := filepath.Rel("/repo", f); err == nil && !strings.HasPrefix(r, "..") {
+	if r, err := filepath.Rel(RepoRoot, f); err == nil && !strings.HasPrefix(r, "..") {
 		return r
 	}
 	return f
